@@ -20,7 +20,7 @@ N_BIG = {'quick': 12, 'thorough': 1500}        # histories over 20-150 systems (
 RULE = ('cases: (a) seeded random histories of 30-200 ops (add 45%/remove 25%/step 20%/duplicate-add 5%/unknown-remove 5%) '
         'over 6-10 system ids with priorities from {-3..3, +-10^12} forced to repeat, systems re-registered after removal '
         '(priority sometimes changed while unregistered), real Collector subclasses (default priority -1) mixed in, registrations / removals / '
-        're-registrations also issued from inside a timestep by a system, and usually two models alive at once that share the system ids; '
+        're-registrations also issued from inside a timestep by a system (also in the middle of ONE execute(n) call), timesteps requested through execute_systems() / execute() / execute(n) / the deprecated alias, identifiers as str-subclass instances, priorities as numpy integers, falsy system objects (__len__ 0 / __bool__ False), models with a quiet user logger, and usually two models alive at once that share the system ids; '
         '(a2) the same over 20-150 systems with the queue filled first (scale regime: long queues, many ties); (b) for each priority multiset over n<=N systems every distinct registration order (exhaustive). '
         'A case is non-trivial when an executed timestep contained >=1 pair of equal-priority neighbours AND (for '
         'histories) >=1 system was re-registered; distinct = distinct (priority sequence in registration order, op-kind '
@@ -28,7 +28,7 @@ RULE = ('cases: (a) seeded random histories of 30-200 ops (add 45%/remove 25%/st
 ASSUMPTIONS = ['priorities are fixed while a system is registered (as the property states)',
                'systems do not override __eq__ (identity equality)',
                'the System/Collector subclasses used for logging only append to a list in execute()/collect()']
-FLOORS = {'quick': {'tie_pairs': 500, 'rejected_add': 50, 'rejected_remove': 50, 'steps_compared': 2000,
+FLOORS = {'quick': {'steps_after_in_call_change': 2311, 'steps_inside_multi_step_call': 7526, 'step_via_executeSystems': 3411, 'step_via_execute': 3434, 'falsy_system_objects': 3454, 'tie_pairs': 500, 'rejected_add': 50, 'rejected_remove': 50, 'steps_compared': 2000,
                     'reregistrations': 200, 'in_cycle_change_steps': 1000, 'big_histories': 6, 'big_systems': 300, 'two_model_histories': 500, 'contract:SystemManager.queue': 1000, 'reach:Core.SystemManager.add_system': 1000,
                     'reach:Core.SystemManager.execute_systems': 1000},
           'thorough': {'tie_pairs': 50000, 'rejected_add': 5000, 'rejected_remove': 5000, 'steps_compared': 100000,
@@ -50,7 +50,11 @@ def _fixtures():
             self.intended_priority = priority
 
         def execute(self):
-            self.log.append(self.id)
+            self.log.append((self.model.systems.timestep, self.id))
+
+    # user systems that are falsy although perfectly valid: a job queue that is empty (len 0), a switch that is off (bool False)
+    LogSystemSized = type('LogSystemSized', (LogSystem,), {'__len__': lambda self: 0})
+    LogSystemOff = type('LogSystemOff', (LogSystem,), {'__bool__': lambda self: False})
 
     class LogCollector(collectors.Collector):
         """A real Collector: default priority (-1) unless given, collect() is what execute() calls."""
@@ -64,7 +68,13 @@ def _fixtures():
             self.intended_priority = -1 if priority is None else priority      # documented collector default: -1
 
         def collect(self):
-            self.log.append(self.id)
+            self.log.append((self.model.systems.timestep, self.id))
+
+    class LogCollectorSized(LogCollector):
+        """len(collector) = number of records collected so far (0: nothing is ever stored by collect() above)."""
+
+        def __len__(self):
+            return len(self.records)
 
     class Mutator(core.System):
         """Applies queued registrations / removals from INSIDE a timestep (a system changing the system set)."""
@@ -75,7 +85,12 @@ def _fixtures():
 
         def execute(self):
             d = self.driver
+            t = self.model.systems.timestep
+            d.order_at_start[t] = d.expected_order()
             pending, d.pending = d.pending, []
+            pending = pending + d.pending_at.pop(t, [])
+            if pending:
+                d.mutated.add(t)
             for kind, obj in pending:
                 if kind in ('remove', 'readd') and d.registered(obj.id) is not None:
                     self.model.systems.remove_system(obj.id)
@@ -85,17 +100,22 @@ def _fixtures():
                     d.ref.append({'id': obj.id, 'obj': obj, 'prio': d.intended(obj), 'seq': d.seq})
                     d.seq += 1
 
+    LogSystem.variants = [LogSystem, LogSystemSized, LogSystemOff]
+    LogCollector.variants = [LogCollector, LogCollectorSized]
     return core, LogSystem, LogCollector, Mutator
 
 
 class Driver:
-    def __init__(self, ctx):
-        from vlib import contracts
+    def __init__(self, ctx, rng=None):
+        from vlib import contracts, reps
+        import random as _r
         self.ctx = ctx
+        self.rng = rng or _r.Random(0)
         self.core, self.LogSystem, self.LogCollector, Mutator = _fixtures()
         contracts.attach_system_manager(self.core)
         self.contracts = contracts
-        self.model = self.core.Model()
+        self.model = reps.make_model(self.rng, self.core) if rng is not None else self.core.Model()
+        self.pending_at, self.order_at_start, self.mutated = {}, {}, set()
         self.log = []
         self.ref = []       # registered: dicts {id, obj, prio, seq}
         self.seq = 0
@@ -153,19 +173,31 @@ class Driver:
             step = max(1, len(ref) // 8)
             ref = ref[self.seq % step::step]
         for r in ref:
-            check(self.model.systems[r['id']] is r['obj'], f'systems[{r["id"]!r}] is not the registered object')
+            check(self.model.systems[r['id'][:]] is r['obj'], f'systems[{r["id"]!r}] is not the registered object')    # [:] -> plain str
             self.ctx.ev()
 
     def step(self):
         del self.log[:]
         t = self.model.systems.timestep
-        self.model.systems.execute_systems()
+        how = self.rng.choice(['execute_systems', 'execute_systems', 'execute', 'execute(1)', 'executeSystems'])
+        if how == 'execute_systems':
+            self.model.systems.execute_systems()
+        elif how == 'execute':
+            self.model.execute()
+        elif how == 'execute(1)':
+            self.model.execute(1)
+        else:
+            import warnings
+            with warnings.catch_warnings():
+                warnings.simplefilter('ignore')
+                self.model.systems.executeSystems()        # deprecated spelling
+        self.ctx.count('step_via_' + how)
         exp = self.expected_order()
         self.ctx.ev()
         self.ctx.count('steps_compared')
-        if self.log != exp:
+        if [i for _, i in self.log] != exp or any(tt != t for tt, _ in self.log):
             raise CaseViolation('execution order of a timestep differs from (descending priority, registration order)',
-                                expected=exp, observed=list(self.log),
+                                expected=exp, observed=list(self.log), entry_point=how,
                                 registered=[(r['id'], r['prio'], r['seq']) for r in self.ref], timestep=t)
         prios = {r['id']: r['prio'] for r in self.ref}
         ties = sum(1 for a, b in zip(exp, exp[1:]) if prios[a] == prios[b])
@@ -179,11 +211,44 @@ class Driver:
         step is C05's subject; here only 'nobody twice' is checked and the FOLLOWING steps must show the new order."""
         del self.log[:]
         self.model.systems.execute_systems()
-        dup = [i for i in set(self.log) if self.log.count(i) > 1]
+        ids = [i for _, i in self.log]
+        dup = [i for i in set(ids) if ids.count(i) > 1]
         if dup:
             raise CaseViolation(f'system(s) {dup} ran twice in a timestep during which the system set was changed', log=list(self.log))
         self.ctx.count('in_cycle_change_steps')
         self.trace.append('M')
+        self.lookups()
+
+    def step_many(self, n, schedule):
+        """ONE call model.execute(n); `schedule` maps an offset within the call to changes a system applies during that timestep.
+        Every timestep of the call in which nothing was changed must run exactly the order valid at its start."""
+        del self.log[:]
+        t0 = self.model.systems.timestep
+        for off, changes in schedule.items():
+            self.pending_at.setdefault(t0 + off, []).extend(changes)
+        self.model.execute(n)
+        check(self.model.systems.timestep == t0 + n, f'execute({n}) advanced the clock by {self.model.systems.timestep - t0}')
+        for t in range(t0, t0 + n):
+            got = [i for tt, i in self.log if tt == t]
+            if t in self.mutated:
+                dup = [i for i in set(got) if got.count(i) > 1]
+                if dup:
+                    raise CaseViolation(f'system(s) {dup} ran twice in a timestep during which the system set was changed', log=got)
+                self.ctx.count('in_cycle_change_steps')
+                continue
+            exp = self.order_at_start.get(t)
+            self.ctx.ev()
+            self.ctx.count('steps_compared')
+            self.ctx.count('steps_inside_multi_step_call')
+            if exp is None or got != exp:
+                raise CaseViolation(f'execute({n}): timestep {t} (offset {t - t0} of the call) did not run in (descending priority, '
+                                    f'registration order) of the systems registered at its start', expected=exp, observed=got,
+                                    changed_in_steps=sorted(x for x in self.mutated if t0 <= x < t0 + n), call_started_at=t0)
+            if any(x for x in self.mutated if t0 <= x < t):
+                self.ctx.count('steps_after_in_call_change')
+        self.order_at_start.clear()
+        self.mutated.clear()
+        self.trace.append(f'N{n}')
         self.lookups()
 
     def probe(self):
@@ -195,7 +260,7 @@ class Driver:
 def case_history(ctx, case):
     big = case.get('kind') == 'big'
     rng = ctx.rng('big' if big else 'hist', case['i'])
-    drivers = [Driver(ctx) for _ in range(2 if rng.random() < 0.6 and not big else 1)]      # two models alive at once share the system ids
+    drivers = [Driver(ctx, rng) for _ in range(2 if rng.random() < 0.6 and not big else 1)]      # two models alive at once share the system ids
     if len(drivers) == 2:
         ctx.count('two_model_histories')
     k = rng.choice([20, 40, 70, 100, 150]) if big else rng.randint(6, 10)
@@ -203,14 +268,18 @@ def case_history(ctx, case):
         ctx.count('big_histories')
         ctx.count('big_systems', k)
     pool = rng.sample(PRIOS, rng.randint(2, 4))        # few levels -> forced repeats
-    names = [f's{j}' for j in range(k)]
+    from vlib import reps
+    names = [reps.as_str(rng, f's{j}', allow_enum=False) for j in range(k)]      # identifiers may be instances of str subclasses
+    P = lambda v: reps.as_int(rng, v)          # noqa: priorities may arrive as numpy integers
     for d in drivers:
         d.objs = {}
         for n in names:
             if rng.random() < 0.25:
-                d.objs[n] = d.LogCollector(n, d.model, d.log, priority=None if rng.random() < 0.6 else rng.choice(pool))
+                d.objs[n] = reps.pick_variant(rng, d.LogCollector.variants)(n, d.model, d.log, priority=None if rng.random() < 0.6 else P(rng.choice(pool)))
             else:
-                d.objs[n] = d.LogSystem(n, d.model, d.log, priority=rng.choice(pool))
+                d.objs[n] = reps.pick_variant(rng, d.LogSystem.variants)(n, d.model, d.log, priority=P(rng.choice(pool)))
+            if type(d.objs[n]) not in (d.LogSystem, d.LogCollector):
+                ctx.count('falsy_system_objects')
         d.ever_removed = set()
     rereg, ties = 0, 0
     nops = rng.randint(30, 200) if ctx.tier == 'thorough' else rng.randint(30, 90)
@@ -232,7 +301,7 @@ def case_history(ctx, case):
                 if rng.random() < 0.4:
                     o.priority = o.intended_priority = rng.choice(pool)       # changed while unregistered: the new value counts
                 if rng.random() < 0.2:                  # a different object under the old id
-                    o = objs[n] = d.LogSystem(n, d.model, d.log, priority=rng.choice(pool))
+                    o = objs[n] = reps.pick_variant(rng, d.LogSystem.variants)(n, d.model, d.log, priority=P(rng.choice(pool)))
                 rereg += 1
                 ctx.count('reregistrations')
             d.add(o)
@@ -251,6 +320,20 @@ def case_history(ctx, case):
             d.step_mutating()
             ties += d.step()
             rereg += 1
+        elif x < 0.76:
+            # one multi-step call, with registrations / removals / re-registrations applied by a system somewhere inside it
+            n_ = rng.randint(2, 6)
+            schedule = {}
+            for _k in range(rng.randint(0, 2)):
+                nm = rng.choice(names)
+                kind = rng.choice(['readd', 'readd', 'remove', 'add'])
+                schedule.setdefault(rng.randrange(n_), []).append((kind, objs[nm]))
+                if kind != 'add':
+                    ever_removed.add(nm)
+            d.step_many(n_, schedule)
+            ties += d.step()
+            if schedule:
+                rereg += 1
         elif x < 0.90:
             ties += d.step()
         elif x < 0.95 and reg:
